@@ -438,8 +438,46 @@ theorem emitHandshake (h : KInv cfg k) (fd : Nat) : KInv cfg (k.emitHandshake cf
     · exact h
     · exact h.emit _ _ rfl
 
-theorem checkRetx (h : KInv cfg k) : KInv cfg (Kernel.checkRetx cfg k) := by
-  unfold Kernel.checkRetx
+/-- Queueing a TCP segment whose payload fits the MSS of its source address. -/
+theorem emit_sized (h : KInv cfg k) (a b : SockAddr) {sg : Seg} (hp : sg.payload.length ≤ mssFor cfg a.ip) :
+    KInv cfg (k.emit a b sg) := by
+  refine ⟨h.caps, ?_⟩
+  intro p hp'
+  simp only [Kernel.emit, List.mem_append, List.mem_singleton] at hp'
+  rcases hp' with hp' | rfl
+  · exact h.out p hp'
+  · simp [Spec.pktSizeOk, hp]
+
+theorem persistProbe (h : KInv cfg k) (fd : Nat) : KInv cfg (k.persistProbe cfg fd) := by
+  unfold Kernel.persistProbe
+  split
+  · exact h
+  · rename_i s hs
+    split
+    · exact h
+    · rename_i t ht
+      dsimp only
+      have hc := h.tcb hs ht
+      split
+      · exact h
+      · rename_i hmss
+        split
+        · apply h.setSock
+          intro t' ht'
+          simp only [Option.some.injEq] at ht'
+          subst ht'
+          exact hc
+        · apply KInv.emit_sized
+          · apply h.setSock
+            intro t' ht'
+            simp only [Option.some.injEq] at ht'
+            subst ht'
+            exact hc
+          · simp only [Tcb.probeSeg, List.length_take]
+            omega
+
+theorem checkRetx0 (h : KInv cfg k) : KInv cfg (Kernel.checkRetx0 cfg k) := by
+  unfold Kernel.checkRetx0
   dsimp only
   apply foldl_inv (P := KInv cfg)
   · apply foldl_inv (P := KInv cfg)
@@ -449,6 +487,14 @@ theorem checkRetx (h : KInv cfg k) : KInv cfg (Kernel.checkRetx cfg k) := by
       exact hb.emitHandshake fd
   · intro b fd hb
     exact hb.abortOrReap _ _
+
+theorem checkRetx (h : KInv cfg k) : KInv cfg (Kernel.checkRetx cfg k) := by
+  have h0 : KInv cfg (Kernel.checkRetx0 cfg k) := h.checkRetx0
+  unfold Kernel.checkRetx
+  dsimp only
+  split
+  · exact foldl_inv (P := KInv cfg) _ _ _ h0 (fun b a hb => hb.persistProbe a)
+  · exact h0
 
 theorem segmentOne (h : KInv cfg k) (fd : Nat) : KInv cfg (Kernel.segmentOne cfg k fd) := by
   unfold Kernel.segmentOne
